@@ -112,7 +112,8 @@ class Geometric(DPMechanism):
         sgn = -1 if unif_rv < 0 else 1
 
         # Use formula for geometric distribution, with ratio of exp(-epsilon/sensitivity)
-        return int(np.round(value + sgn * np.floor(np.log(sgn * unif_rv) / self._scale)))
+        # (the sum is taken in integers: in floating point an input above 2^53 would be rounded before the noise is added)
+        return int(value) + sgn * int(np.floor(np.log(sgn * unif_rv) / self._scale))
 
 
 class GeometricTruncated(Geometric, TruncationAndFoldingMixin):
